@@ -2,13 +2,13 @@ import Verif.Model.SSH
 /-!
   Line-protocol driver for C14 (SSH certificates: type, key id, principals, signer; SSH-POP).
 
-  op=sign   prov=jwk|x5c|oidc|oidcadm cau=0|1 cah=0|1 dbe=0|1 sub=x… ssh=0|1 tct=x… tkid=x… tpr=<list>
-            oem=x… ousr=<list> rct=x… rkid=x… rpr=<list> key=ok|rsasmall|dsa
+  op=sign   prov=jwk|x5c|oidc|oidcadm|nebula cau=0|1 cah=0|1 dbe=0|1 epc=0|1 sub=x… ssh=0|1 tct=x… tkid=x… tpr=<list>
+            oem=x… ousr=<list> nbn=x… nbi=<list> tpip=<list of x…|!> rct=x… rkid=x… rpr=<list> key=ok|rsasmall|dsa
   op=renew|rekey|revoke
-            cau= cah= dren=0|1 aexp=0|1 ct=<n> kid=x… pr=<list> perms=<n> su=0|1 sh=0|1 ny=0|1 ex=0|1 hv=0|1
+            cau= cah= dren=0|1 aexp=0|1 ct=<n> kid=x… pr=<list> pco=<kv list> pex=<kv list> su=0|1 sh=0|1 ny=0|1 ex=0|1 hv=0|1
             tsig= tcl= taud= tsub= tser= rev=0|1 key=ok|rsasmall|dsa
   list = x<hex> items joined by ',' or `-` when empty.
-  Output: unauth | refuse:<status> | refuse | authorized | issue ct=<n> kid=x… pr=<list> [perms=<n>] by=user|host
+  Output: unauth | refuse:<status> | refuse | authorized | issue ct=<n> kid=x… pr=<list> [co=<kv list> ex=<kv list>] by=user|host      (kv = x<key>:x<value>)
 -/
 open Verif Verif.SSH
 
@@ -29,6 +29,13 @@ def lookup (kv : List (String × String)) (k : String) : Option String :=
 def xs (a : Str) : String := "x" ++ hex a
 def listS (l : List String) : String := if l.isEmpty then "-" else ",".intercalate l
 
+def kv? (t : String) : Option (Str × Str) :=
+  match t.splitOn ":" with
+  | [a, b] => do pure ((← str? a), (← str? b))
+  | _ => none
+
+def kvS (l : List (Str × Str)) : String := listS (l.map fun p => s!"{xs p.1}:{xs p.2}")
+
 def key? (t : String) : Option KeyClass :=
   match t with
   | "ok" => some .ok | "rsasmall" => some .rsaSmall | "dsa" => some .dsa | _ => none
@@ -36,7 +43,7 @@ def key? (t : String) : Option KeyClass :=
 def prov? (t : String) : Option Prov :=
   match t with
   | "jwk" => some .jwk | "x5c" => some .x5c
-  | "oidc" => some (.oidc false) | "oidcadm" => some (.oidc true) | _ => none
+  | "oidc" => some (.oidc false) | "oidcadm" => some (.oidc true) | "nebula" => some .nebula | _ => none
 
 def signerS : Signer → String
   | .userKey => "user" | .hostKey => "host"
@@ -49,14 +56,16 @@ def eval (line : String) : Option String := do
     | [k, v] => some (k, v)
     | _ => none
   let get := fun k => lookup kv k
-  let ca : CAKeys := ⟨(← bool? (← get "cau")), (← bool? (← get "cah")), (← bool? (← get "dbe"))⟩
+  let ca : CAKeys := ⟨(← bool? (← get "cau")), (← bool? (← get "cah")), (← bool? (← get "dbe")), (← bool? (← get "epc"))⟩
   let key ← key? (← get "key")
   match (← get "op") with
   | "sign" =>
     let hasSSH ← bool? (← get "ssh")
     let topts : Opts := ⟨(← str? (← get "tct")), (← str? (← get "tkid")), (← list? str? (← get "tpr"))⟩
     let tok : Token := ⟨(← str? (← get "sub")), if hasSSH then some topts else none⟩
-    let o : Oidc := ⟨(← str? (← get "oem")), (← list? str? (← get "ousr"))⟩
+    let optStr? := fun (x : String) => if x = "!" then some none else (str? x).map some
+    let o : Oidc := ⟨(← str? (← get "oem")), (← list? str? (← get "ousr")), (← str? (← get "nbn")),
+      (← list? str? (← get "nbi")), (← list? optStr? (← get "tpip"))⟩
     let req : Opts := ⟨(← str? (← get "rct")), (← str? (← get "rkid")), (← list? str? (← get "rpr"))⟩
     match sshSign ca (← prov? (← get "prov")) tok o req key with
     | .refused 401 => pure "unauth"
@@ -66,14 +75,14 @@ def eval (line : String) : Option String := do
     let cfg : PopCfg := ⟨ca, (← bool? (← get "dren")), (← bool? (← get "aexp"))⟩
     let c : PopCert := {
       ct := (← (← get "ct").toNat?), keyID := (← str? (← get "kid")), principals := (← list? str? (← get "pr")),
-      perms := (← (← get "perms").toNat?), sigUser := (← bool? (← get "su")), sigHost := (← bool? (← get "sh")),
+      perms := ⟨(← list? kv? (← get "pco")), (← list? kv? (← get "pex"))⟩, sigUser := (← bool? (← get "su")), sigHost := (← bool? (← get "sh")),
       notYet := (← bool? (← get "ny")), expired := (← bool? (← get "ex")), hasValidity := (← bool? (← get "hv")) }
     let t : PopTok := ⟨(← bool? (← get "tsig")), (← bool? (← get "tcl")), (← bool? (← get "taud")),
       (← bool? (← get "tsub")), (← bool? (← get "tser"))⟩
     let rev ← bool? (← get "rev")
     let out := fun (r : PopRes) => match r with
       | .refused => "refuse"
-      | .issued c p sg => s!"issue {certS c} perms={p} by={signerS sg}"
+      | .issued c p sg => s!"issue {certS c} co={kvS p.crit} ex={kvS p.exts} by={signerS sg}"
     match op with
     | "renew" => pure (out (popRenew cfg c t rev))
     | "rekey" => pure (out (popRekey cfg c t rev key))
